@@ -279,9 +279,15 @@ func cmdCheck(args []string) int {
 			if !res.Exhausted {
 				problems = append(problems, h.Fn+": exploration truncated (deadline or path cap) — bound not covered")
 			}
-			for _, l := range expect {
-				if res.AssertHit[l] == 0 && res.Reached[l] == 0 {
-					problems = append(problems, fmt.Sprintf("%s: label %q was never reached (vacuity guard)", h.Fn, l))
+			if len(res.Problems) == 0 && res.Exhausted {
+				var missing []string
+				for _, l := range expect {
+					if res.AssertHit[l] == 0 && res.Reached[l] == 0 {
+						missing = append(missing, l)
+					}
+				}
+				if len(missing) > 0 {
+					problems = append(problems, fmt.Sprintf("%s: labels never reached (vacuity guard): %s", h.Fn, strings.Join(missing, ", ")))
 				}
 			}
 			for _, v := range res.Violations {
